@@ -91,16 +91,24 @@ def run_case(acc, text, ts, opts, origin):
         acc.fail(b, case, d)
 
 
+LONG_PARTS = ["monday 12th of may 2020 5:30pm", "friday 15th of may 2020 6:45pm", "tuesday 19th of may 2020 5:30pm", "5.10.2021 14:30",
+              "tomorrow 8pm", "next friday at noon", "March 3rd 2021 quarter past eight", "am 24.12.2022 um 18 Uhr", "8:00 - 9:30",
+              "for 3 days", "Dienstag den 8. Mai 2018 um 9:15 Uhr"]
+
+
 def _shard(arg):
     pid, seed, n, shard = arg
     acc = core.Acc(pid)
     corpus = [t for t, _, _ in gen.corpus_texts()]
+    # very long expressions: production traces of 40-60 steps (model log-likelihoods of several hundred nats)
+    longs = st.lists(st.sampled_from(LONG_PARTS), min_size=3, max_size=5).map(lambda ps: " - ".join(ps[:2]) + " " + " ".join(ps[2:]))
     strat = st.tuples(
         st.one_of(st.tuples(st.just("soup"), gen.soup_strategy(max_tokens=5)),
                   st.tuples(st.just("soup-dates"), gen.soup_strategy(gen.DATE_POOLS, 4)),
                   st.tuples(st.just("family"), gen.family_strategy()),
                   st.tuples(st.just("mutated-corpus"), gen.mutate_strategy()),
-                  st.tuples(st.just("corpus"), st.sampled_from(corpus))),
+                  st.tuples(st.just("corpus"), st.sampled_from(corpus)),
+                  st.tuples(st.just("long-expression"), longs)),
         gen.ts_strategy(), gen.options_strategy())
 
     def body(c):
